@@ -40,6 +40,7 @@ type Case struct {
 	Views  []View  `json:"views"`
 	Op     Op      `json:"op"`
 	Obs    *Obs    `json:"obs,omitempty"`
+	Bin    *BCase  `json:"bin,omitempty"` // second stream (bin.go): the case is this binary operation
 }
 type Obs struct {
 	Hdr0      []int   `json:"hdr0"`
@@ -546,6 +547,15 @@ func main() {
 			Die("%v", err)
 		}
 		c := rp.Case
+		if c.Bin != nil {
+			bc := *c.Bin
+			bc.Obs = executeBin(bc)
+			w := NewCaseWriter(o.Out, "replay", hdrB, "mismB", 1000)
+			w.Type = "bcase"
+			w.Add(coqBCase(bc), bc, "replay", true)
+			w.Flush()
+			return
+		}
 		c.Obs = execute(c, o.Out)
 		w := NewCaseWriter(o.Out, "replay", hdr, "mism", 1000)
 		w.Type = "case"
@@ -555,6 +565,7 @@ func main() {
 	}
 	w := NewCaseWriter(o.Out, "cases", hdr, "mism", 150)
 	w.Type = "case"
+	var corpusBin []BCase
 	w.Rule = "base matrix <= 7x7 (distinct integer entries, ~15% zeros), a composition of 0-4 Slice/ConstSlice/T " +
 		"(10% of the slices overreach their parent: malformed stream), then one public operation, dense and sparse, " +
 		"element types Float64 Real64 Int Float32 Real32 Int64 Int32 Int16; observed: header before/after, result, elements " +
@@ -571,6 +582,10 @@ func main() {
 			if err := json.Unmarshal([]byte(line), &c); err != nil {
 				Die("corpus: %v", err)
 			}
+			if c.Bin != nil {
+				corpusBin = append(corpusBin, *c.Bin)
+				continue
+			}
 			c.Obs = execute(c, o.Out)
 			w.Add(coqCase(c), c, "corpus:"+line, true)
 			w.Count("corpus")
@@ -585,6 +600,28 @@ func main() {
 		countCase(w, c)
 	}
 	if err := w.Flush(); err != nil {
+		Die("%v", err)
+	}
+	// second stream: binary operations on several views of one parent, joint iterator
+	wb := NewCaseWriter(o.Out, "bcases", hdrB, "mismB", 150)
+	wb.Type = "bcase"
+	wb.Rule = "parent matrix 2..6 x 2..6, receiver and both operands drawn as windows / transposed windows / nested windows " +
+		"of THAT parent (10-20% fresh matrices, 1/6 identical to the receiver), then MaddM/MsubM/MmulM, MdotM, Set or the joint " +
+		"iterator; observed: the three headers, panic, the joint report, the receiver's elements and every storage. " +
+		"Non-trivial iff at least two of receiver/operands are proper views of the parent; distinct = distinct (type, shape, view programs, op)"
+	for _, bc := range corpusBin {
+		bc.Obs = executeBin(bc)
+		wb.Add(coqBCase(bc), bc, "corpus:"+bcaseKey(bc), true)
+		wb.Count("corpus")
+	}
+	rb := NewRng(o.Seed*1000003 + 17).Split()
+	for k := 0; k < o.N*3/7; k++ {
+		bc := genBCase(rb.Split(), k)
+		bc.Obs = executeBin(bc)
+		wb.Add(coqBCase(bc), bc, bcaseKey(bc), bNontrivial(bc))
+		countBCase(wb, bc)
+	}
+	if err := wb.Flush(); err != nil {
 		Die("%v", err)
 	}
 }
